@@ -218,6 +218,24 @@ def build_template(t: dict[str, Any], n_dir: int) -> tuple[dict[str, Any], Any]:
     return model_t, ft
 
 
+def _create_trial(b: Any, sid: int, ft: Any) -> int:
+    """create_new_trial with the caller's own template object, which the caller goes on using and
+    changing after the call (one template re-used for several imports): what was stored is the
+    template as it was at the call."""
+    if ft is None:
+        return b.s.create_new_trial(sid, None)
+    tpl = copy.deepcopy(ft)
+    r = b.s.create_new_trial(sid, tpl)
+    tpl.user_attrs["changed-by-the-caller-after-the-call"] = True
+    tpl.system_attrs["changed-by-the-caller-after-the-call"] = True
+    tpl.intermediate_values[987] = 6.5
+    for k in list(tpl.params):
+        tpl.params[k] = "changed-by-the-caller-after-the-call"
+    if tpl._values:
+        tpl._values[0] = 12345.0
+    return r
+
+
 def dist_to_spec(d: Any) -> dict[str, Any]:
     import optuna.distributions as D
 
@@ -346,6 +364,11 @@ def full_dump_check(m: ModelStorage, b: Backend, case: Any, where: str) -> int:
                 n += 1
                 if r != ("exc", KEYERROR):
                     raise Violation("deleted-study-still-readable", f"{b.kind} {where}: {fn}(deleted study handle {i}) -> {r!r}, contract KeyError", case)
+            for num in range(len(st_.trials) + 1):
+                r = b.call(lambda num=num: s.get_trial_id_from_study_id_trial_number(sid, num))
+                n += 1
+                if r != ("exc", KEYERROR):
+                    raise Violation("deleted-study-still-readable", f"{b.kind} {where}: get_trial_id_from_study_id_trial_number(deleted study handle {i}, {num}) -> {r!r}, contract KeyError", case)
             continue
         mt = [m.trials[t] for t in st_.trials]
         for deep, states in ((True, None), (False, ("COMPLETE",)), (False, ("RUNNING", "WAITING")), (True, ("COMPLETE", "PRUNED", "FAIL")), (False, None)):
@@ -375,6 +398,13 @@ def full_dump_check(m: ModelStorage, b: Backend, case: Any, where: str) -> int:
         a = (s.get_study_user_attrs(sid), s.get_study_system_attrs(sid), [d.name for d in s.get_study_directions(sid)])
         if not deep_eq(list(a), [st_.user_attrs, st_.system_attrs, st_.directions]):
             raise Violation("state-differs:study-attrs", f"{b.kind} {where}: study {i}: {a!r} vs contract {(st_.user_attrs, st_.system_attrs, st_.directions)!r}", case)
+        # a trial number the study has not reached yet (the study may have inherited the id of a
+        # deleted one that had more trials)
+        for num in (len(mt), len(mt) + 1, len(mt) + 3):
+            r = b.call(lambda num=num: s.get_trial_id_from_study_id_trial_number(sid, num))
+            n += 1
+            if r != ("exc", KEYERROR):
+                raise Violation("unknown-trial-number-resolved", f"{b.kind} {where}: get_trial_id_from_study_id_trial_number(study {i} with {len(mt)} trials, {num}) -> {r!r}, contract KeyError", case)
         name = s.get_study_name_from_id(sid)
         if (st_.name is not None and name != st_.name) or s.get_study_id_from_name(name) != sid:
             raise Violation("state-differs:study-name", f"{b.kind} {where}: study {i}: name {name!r} vs {st_.name!r}", case)
@@ -505,7 +535,7 @@ def plan(m: ModelStorage, o: list[Any], ctx: Ctx | None) -> Plan | None:
         return Plan(
             "create_new_trial" + ("(template)" if ft is not None else ""),
             lambda: m.create_new_trial(h, mtpl),
-            lambda b: b.s.create_new_trial(_sid(b, h), copy.deepcopy(ft)),
+            lambda b: _create_trial(b, _sid(b, h), ft),
             creates="trial",
             target=("s", h),
             classes=classes,
